@@ -84,9 +84,11 @@ def slot(rt, gid, alph, lo, hi, must=()):
     return {"rt": rt, "id": gid, "alph": list(alph), "lo": lo, "hi": hi, "must": list(must)}
 
 
-def family(name, g, slots, arrs=(1,), split=1, splitmin=1, tagsets=((1,),), orders="id", nsh=1):
+def family(name, g, slots, arrs=(1,), split=1, splitmin=1, tagsets=((1,),), orders="id", nsh=1,
+           kind="seq", maxedges=0):
     return {"name": name, "g": g, "slots": slots, "arrs": list(arrs), "split": split,
-            "splitmin": splitmin, "tagsets": [list(t) for t in tagsets], "orders": orders, "nsh": nsh}
+            "splitmin": splitmin, "tagsets": [list(t) for t in tagsets], "orders": orders, "nsh": nsh,
+            "kind": kind, "maxedges": maxedges}
 
 
 TAGVARS = [(1, 1), (2, 3), (2, 2), (2, 4), (5, 4), (1, 2), (5, 3),
@@ -111,6 +113,11 @@ def families(tier):
         fams.append(family("flatO-g1", 1, [slot("O", "o", flat1, 1, 4)], nsh=44))
         fams.append(family("flatO-g2", 2, [slot("O", "o", flat2, 1, 3)], nsh=6))
         fams.append(family("flatO-g1-arr", 1, [slot("O", "o", flat1, 1, 3)], arrs=(2, 3, 4), nsh=6))
+    # F1b: every way of leaving elements out of every walk of the graph (contiguous lists)
+    fams.append(family("walks-g1", 1, [slot("O", "o", [], 0, 0)], kind="walks", maxedges=3 if q else 4,
+                       arrs=(1,) if q else (1, 3), nsh=1 if q else 4))
+    fams.append(family("walks-g2", 2, [slot("O", "o", [], 0, 0)], kind="walks", maxedges=2 if q else 3,
+                       nsh=1 if q else 6))
     # F2: a definition cut into 2..3 lines, every arrival order, tag sets
     sa = C.ix("a+ b+ e2+")
     ua = C.ix("a e2 b")
@@ -396,7 +403,7 @@ def shard_job(job):
     for i in seen.values():
         c = cases[i]
         for cl in c["cls"]:
-            key = cl[1] + ":" + cl[2]
+            key = cl[1] + ":" + cl[2] + ((":supplied-or-inlined" if cl[3] else ":literal") if cl[2] in ("walk", "set") else "")
             hist[key] = hist.get(key, 0) + 1
         nontriv += 1 if any(cl[3] for cl in c["cls"]) else 0
         relax += 1 if any(cl[4] for cl in c["cls"]) else 0
